@@ -1,4 +1,5 @@
 import Proofs.Reachable
+import Proofs.StaleGuards
 /-!
 # C03 — a transaction is sealed in at most one vertex per ledger; the index is exact
 
@@ -63,6 +64,70 @@ theorem reproposable (b : Book) (v : Vertex) :
     ((b.deleteVertex v.hash).indexRemove v.trx.hash).indexHas v.trx.hash = false := by
   simp [indexHas, indexRemove]
 
+/-! ### Concurrent duplicates: the look-ups run before the ledger lock, the body after it
+
+`CreateLeaf` and `addLeafMemorized` ask "is this transaction / vertex already known" BEFORE `ab.mux.Lock()`;
+the answer may be stale when the body runs. `createLeafLocked` / `addLeafLocked` are the bodies; `Between b0 b1`
+is any run of other calls between the look-ups (on `b0`) and the body (on `b1`). -/
+
+/-- **Stale look-ups never produce a duplicate (gossip / retry path).** Whatever ran between the unlocked
+checks of a delivery and its locked body, the book after the body holds no vertex hash twice, no transaction
+hash twice, and its index is a function that covers every held vertex and has no dangling entry. -/
+theorem stale_delivery_no_duplicates {b0 b1 : Book} (r0 : Reachable b0) (bt : Between b0 b1) (leaf : Vertex) (rep : Nat)
+    (pre : AddPre b0 leaf) (hc : HashConsistent b1 leaf) :
+    let b2 := (b1.addLeafLocked leaf rep).1
+    ((b2.verts ++ b2.cpVerts).map (·.hash)).Nodup ∧ ((b2.verts ++ b2.cpVerts).map (·.trx.hash)).Nodup ∧
+    (b2.index.map (·.1)).Nodup ∧ (∀ v ∈ b2.verts ++ b2.cpVerts, b2.indexGet v.trx.hash = some v.hash) ∧
+    (∀ t h, (t, h) ∈ b2.index → ∃ v ∈ b2.verts ++ b2.cpVerts, v.hash = h ∧ v.trx.hash = t) := by
+  intro b2
+  have r2 : Reachable b2 := addLeaf_stale_prechecks r0 bt leaf rep pre hc
+  exact ⟨no_duplicate_vertex r2, no_duplicate_transaction r2, index_functional r2, index_exact r2, index_no_dangling r2⟩
+
+/-- **Stale look-ups never produce a duplicate (local proposals).** -/
+theorem stale_proposal_no_duplicates {b0 b1 : Book} (r0 : Reachable b0) (bt : Between b0 b1) (trx : Trx) (o1 o2 : List Hash)
+    (tip : Vertex) (pre : CreatePre b0 trx) (hf : b1.cpHasVertex tip.hash = false) :
+    let b2 := (b1.createLeafLocked trx o1 o2 tip).1
+    ((b2.verts ++ b2.cpVerts).map (·.hash)).Nodup ∧ ((b2.verts ++ b2.cpVerts).map (·.trx.hash)).Nodup ∧
+    (b2.index.map (·.1)).Nodup ∧ (∀ v ∈ b2.verts ++ b2.cpVerts, b2.indexGet v.trx.hash = some v.hash) ∧
+    (∀ t h, (t, h) ∈ b2.index → ∃ v ∈ b2.verts ++ b2.cpVerts, v.hash = h ∧ v.trx.hash = t) := by
+  intro b2
+  have r2 : Reachable b2 := createLeaf_stale_prechecks r0 bt trx o1 o2 tip pre hf
+  exact ⟨no_duplicate_vertex r2, no_duplicate_transaction r2, index_functional r2, index_exact r2, index_no_dangling r2⟩
+
+/-- **Two simultaneous deliveries of the same vertex**: both pass the unlocked look-ups on `b0` (neither has
+inserted yet), then their bodies take the lock one after the other. The vertex and its transaction are
+held at most once afterwards, and the book is a reachable one. -/
+theorem simultaneous_duplicate_deliveries {b0 : Book} (r0 : Reachable b0) (leaf : Vertex) (rep1 rep2 : Nat)
+    (pre : AddPre b0 leaf) (hc : ∀ b, HashConsistent b leaf) :
+    let b1 := (b0.addLeafLocked leaf rep1).1
+    let b2 := (b1.addLeafLocked leaf rep2).1
+    Reachable b2 ∧ ((b2.verts ++ b2.cpVerts).map (·.hash)).Nodup ∧ ((b2.verts ++ b2.cpVerts).map (·.trx.hash)).Nodup := by
+  intro b1 b2
+  have s1 : Steps b0 b1 := steps_addLeafLocked_stale b0 leaf rep1 r0.inv pre.guards pre.notGenesis pre.vok (hc b0)
+  have r2 : Reachable b2 := addLeaf_stale_prechecks r0 (Between.steps (Between.refl b0) s1) leaf rep2 pre (hc b1)
+  exact ⟨r2, no_duplicate_vertex r2, no_duplicate_transaction r2⟩
+
+/-- **Two simultaneous proposals of the same transaction** (two different freshly sealed vertices): the
+transaction ends up in at most one vertex. -/
+theorem simultaneous_duplicate_proposals {b0 : Book} (r0 : Reachable b0) (trx : Trx) (o1 o2 o1' o2' : List Hash) (tip tip' : Vertex)
+    (pre : CreatePre b0 trx) (hf : b0.cpHasVertex tip.hash = false) (hf' : b0.cpHasVertex tip'.hash = false) :
+    let b1 := (b0.createLeafLocked trx o1 o2 tip).1
+    let b2 := (b1.createLeafLocked trx o1' o2' tip').1
+    Reachable b2 ∧ ((b2.verts ++ b2.cpVerts).map (·.trx.hash)).Nodup := by
+  intro b1 b2
+  have s1 : Steps b0 b1 := steps_createLeafLocked b0 trx o1 o2 tip pre.guards hf
+  have hf1 : b1.cpHasVertex tip'.hash = false := by
+    have := s1.frame.2.2.2.1
+    unfold cpHasVertex at hf' ⊢
+    rw [this]; exact hf'
+  have r2 : Reachable b2 := createLeaf_stale_prechecks r0 (Between.steps (Between.refl b0) s1) trx o1' o2' tip' pre hf1
+  exact ⟨r2, no_duplicate_transaction r2⟩
+
+/-- whatever the stale look-up said, the atomic index test inside the body refuses a transaction that is
+already indexed when the body runs -/
+theorem body_refuses_indexed_transaction (b : Book) (v : Vertex) (ps : List Hash) (h : b.indexHas v.trx.hash = true) :
+    insertLinked b v ps = (b, some 1) := insertLinked_index_taken b v ps h
+
 /-! ### Non-vacuity: a concrete reachable two-vertex ledger -/
 def t0 : Trx := ⟨2, "n", "w", ⟨10, 0⟩, false⟩
 def g : Vertex := ⟨1, "n", 0, 0, 0, t0, true⟩
@@ -79,5 +144,11 @@ theorem b2_reachable : Reachable b2 :=
 
 example : b2.verts.map (·.hash) = [1, 3] ∧ b2.index = [(2, 1), (4, 3)] ∧ b2.edges = [(1, 3)] :=
   ⟨rfl, rfl, rfl⟩
+
+/-- two simultaneous proposals of `t1` whose look-ups both ran on `b1`: the second body is refused by the
+atomic index test (`b2` is the ledger after the first) -/
+def v1' : Vertex := ⟨5, "n", 3, 3, 2, t1, true⟩
+example : insertLinked b2 v1' [3, 3] = (b2, some 1) := body_refuses_indexed_transaction b2 v1' _ (by decide)
+example : CreatePre b1 t1 := ⟨⟨rfl, rfl, rfl, by decide, by decide⟩⟩
 
 end Props.C03
